@@ -78,7 +78,13 @@ Fixpoint symbol_to_parts_from (u : sym) (i : nat) (ps : list part) : list nat :=
 Definition top_level_symbol_to_parts (ps : list part) (u : sym) : list nat := symbol_to_parts_from u 0 ps.
 
 (* linker steps 5 and 6 on merged symbols: a part depends on every part, of any
-   file, that declares a symbol it uses *)
+   file, that declares a symbol it uses. The lookup is under the MERGED symbol:
+   step 5 follows the symbol links of the use before TopLevelSymbolToParts (fix
+   ae718d6, finding C04-B: a use recorded under a nested "var" that hoisting
+   merged into a top-level var/function is a use of that top-level symbol), and
+   step 6 works on import symbols merged with the exports they resolve to. In
+   this model [sym] IS the merged symbol (the dump follows links for uses and
+   declarations alike), so [declares_b u] is that lookup. *)
 Definition symbol_deps (g : graph) (p : part) : list (nat * nat) :=
   flat_map (fun u =>
       map (fun tjq => (fst (fst tjq), snd (fst tjq)))
